@@ -4,7 +4,7 @@
 From Coq Require Import List Bool Arith ZArith NArith Lia Init.Byte.
 From HL7 Require Import Lib.Str Model.Ec Model.Result Model.Header Model.Ref Model.Tree Model.Parser Model.Encode
   Model.Leaf Model.MsgTree Model.Groups Model.Message.
-From HL7 Require Import Proofs.SplitJoin Proofs.LevelCodec Proofs.RoundTripStr Proofs.RoundTripCore
+From HL7 Require Import Proofs.PiecesFacts Proofs.SplitJoin Proofs.LevelCodec Proofs.RoundTripStr Proofs.RoundTripCore
   Proofs.RoundTripMsh Proofs.RoundTripTables Proofs.GroupsFacts Proofs.GroupsMirror Proofs.GroupsEnc Proofs.NoDrop
   Proofs.EncodeLeaves.
 Import ListNotations.
@@ -135,13 +135,7 @@ End Header.
 (* ------------------------------------------------------------------ *)
 (* lines                                                                *)
 
-Lemma pieces_lines lines : lines <> [] ->
-  Forall (fun l => l <> [] /\ bmem CR l = false) lines -> pieces (bjoin CR lines) = lines.
-Proof.
-  intros Hne H. unfold pieces. rewrite bsplit_bjoin; [|exact Hne|].
-  - clear Hne. induction H as [|l ls [Hl _] _ IH]; [reflexivity|]. cbn [filter]. destruct l; [congruence|]. now rewrite IH.
-  - rewrite forallb_forall. rewrite Forall_forall in H. intros l Hl. apply nosep_of_bmem. exact (proj2 (H l Hl)).
-Qed.
+(* pieces_lines: Proofs/PiecesFacts.v (the lines must be stripped: parse_segments strips the piece first) *)
 
 Section Flat.
 Variable t : tables.
@@ -271,7 +265,7 @@ Proof.
     { unfold parse_segments_flat. rewrite pieces_lines; [|discriminate|].
       - apply parse_flat_all. clear -Hrt Hall. revert Hall. induction Hrt as [|l s ls ss [Hp _] _ IH]; intros Hall; [constructor|].
         inversion Hall as [|? ? [_ [_ Hs]] Hr]; subst. constructor; [now rewrite Hs|now apply IH].
-      - eapply Forall_impl; [|exact Hall]. intros l [A [B _]]. now split. }
+      - exact Hall. }
     assert (Hkids : (match m_st m0 with Some st => parse_segments_flat t TOLERANT e leaf (bjoin CR (msh_line e hf :: lines))
                                     | None => parse_segments_flat t TOLERANT e leaf (bjoin CR (msh_line e hf :: lines)) end)
                     = Ok (map NSeg (s0 :: segs))) by (destruct (m_st m0); exact Hflat).
@@ -480,11 +474,10 @@ Qed.
 
 (* every segment of the grouped parse is the flat parse of its own piece *)
 Theorem grouped_segments_are_flat text f :
-  Forall (fun l => strip l = l) (pieces text) ->
   parse_segments_grouped_trees t TOLERANT e leaf root text = Ok f ->
   Forall2 (fun l s => parse_segment t TOLERANT e leaf l None = Ok s) (pieces text) (gflatten f).
 Proof.
-  intros Hstrip H. unfold parse_segments_grouped_trees in H.
+  intros H. pose proof (pieces_stripped text) as Hstrip. unfold parse_segments_grouped_trees in H.
   pose proof (find_groups_sound t str seg (take 3) mk s_name (group_admission t TOLERANT) root Htab _ _ H) as Hs.
   pose proof (find_groups_unplaced t str seg (take 3) mk s_name (group_admission t TOLERANT) root Htab Hdist _ _ H) as Hu.
   destruct (find_groups_order t str seg (take 3) mk s_name (group_admission t TOLERANT) root _ _ H) as [_ Ho].
@@ -681,7 +674,7 @@ Proof.
     unfold msh_line. cbn [bjoin join MSH unbs app]. destruct hf; discriminate. }
   assert (Hall : Forall (fun l => l <> [] /\ bmem CR l = false /\ strip l = l) (msh_line e hf :: lines)) by (constructor; assumption).
   assert (Hpieces : pieces text = msh_line e hf :: lines).
-  { subst text. apply pieces_lines; [discriminate|]. eapply Forall_impl; [|exact Hall]. intros l [A [B _]]. now split. }
+  { subst text. apply pieces_lines; [discriminate|exact Hall]. }
   assert (Hlstrip : lstrip text = text).
   { assert (E : exists tl, text = "M"%byte :: tl).
     { subst text. unfold msh_line. destruct lines; cbn [bjoin join MSH unbs app]; eexists; reflexivity. }
@@ -713,7 +706,7 @@ Proof.
   rewrite Hpieces in Hflat.
   assert (Hstr : Forall (fun l => strip l = l) (msh_line e hf :: lines)).
   { eapply Forall_impl; [|exact Hall]. intros l [_ [_ H]]. exact H. }
-  specialize (Hflat Hstr Ef).
+  specialize (Hflat Ef).
   assert (Hsegs : gflatten f = s0 :: segs).
   { eapply (Forall2_fun (fun l s => parse_segment t TOLERANT e leaf l None = Ok s)); [|exact Hflat|].
     - intros l a1 a2 H1 H2. congruence.
